@@ -632,6 +632,10 @@ def make_run_plan(run_seed: int, profile: str, tier: str = "quick", overrides: d
                 priv[key] = (s["pid"], mleaf)
                 op["pobj"] = key
                 op["leaf"] = mleaf
+            if rng.random() < 0.25:
+                op["pshuffle"] = rng.randrange(1, 2**31)  # the same parameters, dict keys inserted in another order
+            if rng.random() < 0.25:
+                op["kw"] = True  # params passed by keyword
             hfill = next((h for h in handles if h["hid"] == op["handle"] and h.get("fill") == op["params"]), None)
             if hfill is not None and not op.get("pobj") and rng.random() < 0.5:
                 op["pobj"] = f"T:{hfill['hid']}"  # the filled-in template itself is passed as params
